@@ -475,6 +475,12 @@ def shutdown_scenarios(env):
                     why.append('after shutdown the network must report closed with no peers and every call must fail (not hang, not succeed)')
         if why:
             fails.append(dict(scenario='shutdown_scenario', args=dict(variant=variant), expected=dict(violated=why), observed=got))
+    # explicit shutdown while connect calls saturate the connection manager's mailbox
+    got = _run('shutdown_full_mailbox', {}, env, timeout=60)
+    cases += 1
+    exp = dict(returned=True, shutdown_ok=True, pending_connects_failed=8, is_closed=True, peers=0, weak_reference_upgrades=False, connect_after_shutdown='error', rebind_at_once=True)
+    if got.get('panicked') or any(got.get(k) != v for k, v in exp.items()) or got.get('took_ms', 10**9) > 6000:
+        fails.append(dict(scenario='shutdown_full_mailbox', args={}, expected=dict(exp, took_ms='<= 6000 (idle-wait bound 3 s)'), observed=got))
     got = _run('runtime_teardown', {}, env, timeout=120)
     for m in got.get('moments') or [dict(moment='?', came_back_within_10s=False, panicked=True)]:
         cases += 1
